@@ -413,6 +413,9 @@ class FractionalSymbolicDuration(object):
 
         # Remove spurious components with 0 in the numerator
         add_components = [c for c in add_components if c[0] != 0]
+        if len(add_components) == 0:
+            # (0 + 0: no components left, the sum is written as a plain 0)
+            add_components = None
 
         return FractionalSymbolicDuration(
             numerator=new_num,
